@@ -72,3 +72,8 @@ def run(rep, tier, seed):
     if acc == 0 and not rep.violations and not rep.known_hits:
         from engine import report
         raise report.Machinery("no run was accepted (vacuous)")
+
+
+def selftest(seed):
+    from checks import selftest as st
+    return st.run([st.jump])
